@@ -422,10 +422,14 @@ class Exec:
                     continue
             env = S.Env(self, self.store, dict(self.names), self.this_path, {})
             extra = dict(self.spec_lets)
-            extra['arg'] = args[0] if args else None
+            a0 = args[0] if args else None
+            extra['arg'] = env.wrap(a0) if a0 is not None else None
+            for ai, av in enumerate(args):
+                extra['arg%d' % ai] = env.wrap(av)
             new = {}
             for g, e in updates.items():
-                new[g] = S.spec_eval_term(e, env, extra)
+                v = S.spec_eval_term(e, env, extra)
+                new[g] = v.tree if isinstance(v, S.W) else v
             for g, v in new.items():
                 self.write(Path('ghost_' + g), v)
 
@@ -1295,7 +1299,7 @@ class Exec:
 
     def declare(self, d):
         sh = self.tshape(d)
-        inits = [c for c in d.get('inner', ()) if c.get('kind') not in ('TemplateArgument',) and 'Attr' not in c.get('kind', '')]
+        inits = [c for c in d.get('inner', ()) if c.get('kind') not in ('TemplateArgument',) and 'Attr' not in c.get('kind', '') and 'Comment' not in c.get('kind', '')]
         if d.get('storageClass') == 'static' or d.get('tls'):
             qt = d.get('type', {}).get('qualType', '')
             if not (qt.startswith('const ') or d.get('constexpr')):
